@@ -122,7 +122,7 @@ def runner(scn):
 def specs(r):
     from .. import aiomix
     from . import c08
-    qs = aiomix.idle_specs(r) + aiomix.first_due_specs(r, c01.tm_tokens) + aiomix.skip_specs(r, c08.tms_tokens)
+    qs = aiomix.idle_specs(r) + aiomix.first_due_specs(r, c01.tm_tokens) + aiomix.skip_specs(r, c08.tms_tokens) + aiomix.cadence_specs(r, c08.tms_tokens)
     scn = r["scn"]
     ev = per_job_events(r["obs"])
     for k, evs in ev.items():
